@@ -12,6 +12,19 @@ Why(r) ==
   IF "panic" \in DOMAIN r THEN "panic"
   ELSE IF ~TwinEq(r.inst, r.plain) THEN "TwinEq"
   ELSE IF ~Silent(r.plain) THEN "PlainNotSilent"
+  ELSE IF r.mode = "thr" THEN
+       LET X == r.x
+           on(c) == X[c].level <= r.thr
+           badc(P(_, _)) == \E c \in DOMAIN X : on(c) /\ ~P(c - 1, XK(X[c], r.thr)) IN
+       IF badc(LAMBDA cc, x : SpanOk(r.inst, cc, x, Env(r.inst))) THEN "OneSpan"
+       ELSE IF badc(LAMBDA cc, x : Bracket(r.inst, cc)) THEN "Bracket"
+       ELSE IF badc(LAMBDA cc, x : NothingElse(r.inst, cc)) THEN "NothingElse"
+       ELSE IF badc(LAMBDA cc, x : Events(r.inst, cc, x)) THEN "Events"
+       ELSE IF badc(LAMBDA cc, x : Closed(r.inst, cc)) THEN "Closed"
+       ELSE IF \E c \in DOMAIN X : ~on(c) /\ ~NoSpanCall(r.inst, c - 1) THEN "NoSpan"
+       ELSE IF \E c \in DOMAIN X : ~on(c) /\ ~EventsNoSpan(r.inst, c - 1, XK(X[c], r.thr)) THEN "EventsOfDisabledSpan"
+       ELSE IF ~AcceptThr(r.thr, r.inst, r.plain, X) THEN "AcceptThr"
+       ELSE ""
   ELSE IF r.mode # "accept" THEN (IF ~Silent(r.inst) THEN "Silent" ELSE IF Lifecycle(r.inst) # Lifecycle(r.plain) THEN "Lifecycle" ELSE "")
   ELSE LET X == r.x
            badc(P(_, _)) == \E c \in DOMAIN X : ~P(c - 1, X[c]) IN
